@@ -50,6 +50,8 @@ def wexpr(e, out):
         out.append('n' + fnum(e[1]))
     elif k == 'v' or k == 'vraw':
         out.append('v%d' % e[1])
+    elif k == 'dvx':                      # C20 extension: defined variable (common expression), already an NL index
+        out.append('v%d' % e[1])
     elif k in ('T', 'F'):
         out.append('n1' if k == 'T' else 'n0')
     elif k in ('sum', 'min', 'max', 'forall', 'exists', 'alldiff', 'notalldiff', 'count'):
